@@ -49,7 +49,16 @@ class CacheModel(object):
                 self.lock_attr = t.attr
     if self.cls is None:
       raise AnchorMissing('no dict-derived cache class with a lock attribute found in carbon.cache')
-    self.methods = {k: v for k, v in self.cls.methods.items() if k != '__init__'}
+    self.methods = {k: cx.inl(v) for k, v in self.cls.methods.items() if k != '__init__'}
+    # a private helper that was spliced into every one of its callers is analysed there, in the caller's lock context
+    self.absorbed = set()
+    spliced = set()
+    for m in self.methods.values():
+      spliced |= set(getattr(m, 'inlined_from', ()))
+    for k, v in list(self.methods.items()):
+      if v.key in spliced and k.startswith('_') and not k.startswith('__') and not self._still_called(k):
+        self.absorbed.add(k)
+        del self.methods[k]
     self.accesses = {}
     self.aliases = {}
     self._owned_helpers = None
@@ -58,6 +67,19 @@ class CacheModel(object):
       self.aliases[name] = self._find_aliases(m)
     for name, m in self.methods.items():
       self.accesses[name] = self._collect(m)
+
+  def _still_called(self, name):
+    for m in self.methods.values():
+      for n in walk_no_nested(m.node, include_self=False):
+        if isinstance(n, ast.Attribute) and n.attr == name:
+          return True
+    for f in self.repo.all_functions():
+      if f.cls is self.cls:
+        continue
+      for n in walk_no_nested(f.node, include_self=False):
+        if isinstance(n, ast.Attribute) and n.attr == name:
+          return True
+    return False
 
   # ------------------------------------------------------------ basics
   def lock_blocks(self, m):
@@ -114,6 +136,7 @@ class CacheModel(object):
   def _find_aliases(self, m):
     """local name -> 'shared' | 'owned' | 'attr:<name>' (alias loaded from an attribute)."""
     out = {}
+    copies = []
     for n in walk_no_nested(m.node, include_self=False):
       pairs = []
       if isinstance(n, ast.Assign):
@@ -136,6 +159,17 @@ class CacheModel(object):
         if k:
           prev = out.get(name)
           out[name] = k if prev in (None, k) else 'shared'
+        elif isinstance(v, ast.Name):
+          copies.append((name, v.id))
+    # plain copies (x = y), to a fixpoint
+    changed = True
+    while changed:
+      changed = False
+      for name, src in copies:
+        k = out.get(src)
+        if k and out.get(name) != k and out.get(name) != 'shared':
+          out[name] = k if out.get(name) is None else 'shared'
+          changed = True
     # loop / comprehension targets over self.items() / self.values()
     for n in ast.walk(m.node):
       if isinstance(n, (ast.For, ast.comprehension)):
